@@ -90,6 +90,18 @@ impl Op {
 pub struct Step {
     pub client: usize,
     pub op: Op,
+    /// after this step the client's OS thread exits and is joined (thread-locals destroyed);
+    /// the client's next step, if any, runs on a fresh thread. Only meaningful with exec=threads.
+    #[serde(default, skip_serializing_if = "is_false")]
+    pub retire: bool,
+}
+
+fn is_false(b: &bool) -> bool {
+    !*b
+}
+
+fn default_exec() -> String {
+    "main".to_string()
 }
 
 #[derive(Serialize, Deserialize, Clone, Debug, PartialEq, Eq)]
@@ -98,6 +110,12 @@ pub struct Config {
     pub clients: usize,
     pub mode: String,
     pub first_kind: String,
+    /// "main": every operation runs on the process's main thread.
+    /// "threads": every simulated client is a real OS thread, parked on a channel and released by
+    /// the simulator for exactly one operation at a time (so the interleaving is still the
+    /// simulator's choice and replays exactly); clients may retire and come back as new threads.
+    #[serde(default = "default_exec")]
+    pub exec: String,
     /// the linearised history: at step i the simulator advanced `client` by `op`
     pub steps: Vec<Step>,
 }
@@ -132,7 +150,11 @@ fn gen_pres(rng: &mut Rng, n: usize) -> Pres {
         _ => rng.below(16),
     };
     let words = rng.below(3);
-    let off = if kind == PresKind::Parsed { 0 } else { words * 16 + residue };
+    let mut off = if kind == PresKind::Parsed { 0 } else { words * 16 + residue };
+    // rarely: a window far into a long carrier (offsets around 2^8, 2^12 and 2^16 symbols)
+    if kind != PresKind::Parsed && kind != PresKind::Static && rng.chance(1, 600) {
+        off = *rng.pick(&[255usize, 256, 257, 1023, 4095, 4096, 4097, 16383, 65535, 65536, 65537]) + rng.below(3) * 16;
+    }
     let tail = if kind == PresKind::Parsed { 0 } else { rng.below(20) };
     Pres { kind, off, tail, fill: rng.next_u64() }
 }
@@ -149,17 +171,27 @@ fn letters(rng: &mut Rng, n: usize, gap_ok: bool) -> String {
 pub fn generate(run_seed: u64) -> Config {
     let mut rng = Rng::new(run_seed);
     let clients = rng.range(1, 4);
-    let mode = if rng.chance(2, 3) { "sweep" } else { "sample" };
+    let mode = match rng.below(40) {
+        0 => "marathon",
+        1..=26 => "sweep",
+        _ => "sample",
+    };
+    let exec = if rng.chance(1, 2) { "threads" } else { "main" };
     let first_kind = *rng.pick(&["amino", "codon", "badlen", "any"]);
 
     let mut ops: Vec<Op> = Vec::new();
-    if mode == "sweep" {
-        for a in IUPAC_LETTERS {
-            for b in IUPAC_LETTERS {
-                for c in IUPAC_LETTERS {
-                    let codon = String::from_utf8(vec![*a, *b, *c]).unwrap();
-                    let pres = gen_pres(&mut rng, 3);
-                    ops.push(Op::Amino { codon, pres });
+    if mode == "sweep" || mode == "marathon" {
+        // marathon: the complete domain sixteen times over in one process (> 2^16 calls), for
+        // state that only goes wrong after many calls (counters, bounded caches)
+        let rounds = if mode == "marathon" { 16 } else { 1 };
+        for _ in 0..rounds {
+            for a in IUPAC_LETTERS {
+                for b in IUPAC_LETTERS {
+                    for c in IUPAC_LETTERS {
+                        let codon = String::from_utf8(vec![*a, *b, *c]).unwrap();
+                        let pres = gen_pres(&mut rng, 3);
+                        ops.push(Op::Amino { codon, pres });
+                    }
                 }
             }
         }
@@ -208,7 +240,7 @@ pub fn generate(run_seed: u64) -> Config {
     // length, one symbol widened or narrowed, the same codon under another presentation, the
     // reverse lookup of the answer
     let mut blocks: Vec<Vec<Op>> = ops.into_iter().map(|o| vec![o]).collect();
-    let n_bursts = if mode == "sweep" { 192 } else { 96 };
+    let n_bursts = if mode == "sample" { 96 } else { 192 };
     for _ in 0..n_bursts {
         let base = if rng.chance(1, 2) {
             miri_scenario::exact_codon(&mut rng)
@@ -291,7 +323,7 @@ pub fn generate(run_seed: u64) -> Config {
     // deal to clients; the schedule is the sequence of client picks
     let steps = ops
         .into_iter()
-        .map(|op| Step { client: rng.below(clients), op })
+        .map(|op| Step { client: rng.below(clients), op, retire: exec == "threads" && rng.chance(1, 150) })
         .collect();
 
     Config {
@@ -299,6 +331,7 @@ pub fn generate(run_seed: u64) -> Config {
         clients,
         mode: mode.to_string(),
         first_kind: first_kind.to_string(),
+        exec: exec.to_string(),
         steps,
     }
 }
@@ -560,6 +593,67 @@ pub fn judge(op: &Op, got: &str) -> Result<(), (String, String)> {
     }
 }
 
+/// Real OS threads standing in for the simulated clients. Each is parked on a channel; the
+/// simulator sends it exactly one operation and blocks until the answer is back, so at any moment
+/// at most one thread of the process is running and the interleaving is the simulator's choice.
+struct ClientThread {
+    tx: std::sync::mpsc::Sender<Option<Op>>,
+    rx: std::sync::mpsc::Receiver<String>,
+    handle: std::thread::JoinHandle<()>,
+}
+
+#[derive(Default)]
+struct ClientPool {
+    threads: BTreeMap<usize, ClientThread>,
+    spawned: usize,
+    retired: usize,
+}
+
+impl ClientPool {
+    fn execute_on(&mut self, client: usize, op: &Op) -> String {
+        if !self.threads.contains_key(&client) {
+            let (tx, crx) = std::sync::mpsc::channel::<Option<Op>>();
+            let (ctx, rx) = std::sync::mpsc::channel::<String>();
+            let handle = std::thread::Builder::new()
+                .name(format!("sim-client-{client}"))
+                .stack_size(4 << 20)
+                .spawn(move || {
+                    while let Ok(Some(op)) = crx.recv() {
+                        if ctx.send(execute(&op)).is_err() {
+                            break;
+                        }
+                    }
+                })
+                .expect("harness: spawn client thread");
+            self.spawned += 1;
+            self.threads.insert(client, ClientThread { tx, rx, handle });
+        }
+        let t = &self.threads[&client];
+        t.tx.send(Some(op.clone())).expect("harness: client thread alive");
+        match t.rx.recv() {
+            Ok(s) => s,
+            // execute() catches panics of the code under test, so a dead client thread means the
+            // process-level machinery failed (e.g. abort-on-double-panic is not catchable here)
+            Err(_) => "PANIC(client thread died)".to_string(),
+        }
+    }
+
+    fn retire(&mut self, client: usize) {
+        if let Some(t) = self.threads.remove(&client) {
+            let _ = t.tx.send(None);
+            let _ = t.handle.join();
+            self.retired += 1;
+        }
+    }
+
+    fn retire_all(&mut self) {
+        let ids: Vec<usize> = self.threads.keys().copied().collect();
+        for c in ids {
+            self.retire(c);
+        }
+    }
+}
+
 #[derive(Serialize, Deserialize, Clone, Debug)]
 pub struct Violation {
     pub class: String,
@@ -590,6 +684,9 @@ pub struct RunStats {
     pub first_op: String,
     pub schedule_sig: String,
     pub repeats_checked: usize,
+    pub client_threads_spawned: usize,
+    pub client_threads_retired: usize,
+    pub far_offset_windows: usize,
 }
 
 #[derive(Serialize, Deserialize, Clone, Debug)]
@@ -598,6 +695,7 @@ pub struct RunResult {
     pub clients: usize,
     pub mode: String,
     pub first_kind: String,
+    pub exec: String,
     pub digest: String,
     pub stats: RunStats,
     pub violations: Vec<Violation>,
@@ -620,9 +718,14 @@ pub fn run(cfg: &Config) -> RunResult {
     let mut fwd_warm = false;
     let mut inv_warm = false;
     let mut sched = Digest::default();
+    let mut pool = ClientPool::default();
+    let threaded = cfg.exec == "threads";
 
     for (i, step) in cfg.steps.iter().enumerate() {
-        let got = execute(&step.op);
+        let got = if threaded { pool.execute_on(step.client, &step.op) } else { execute(&step.op) };
+        if threaded && step.retire {
+            pool.retire(step.client);
+        }
         let kind = match &step.op {
             Op::Amino { .. } => "amino",
             Op::Codon { .. } => "codon",
@@ -661,6 +764,7 @@ pub fn run(cfg: &Config) -> RunResult {
 
         digest.feed_u64(i as u64);
         digest.feed_u64(step.client as u64);
+        digest.feed_u64(u64::from(step.retire));
         digest.feed(step.op.describe().as_bytes());
         digest.feed(got.as_bytes());
         if i < 6 || (i % 997 == 0 && sample_events.len() < 12) {
@@ -699,6 +803,9 @@ pub fn run(cfg: &Config) -> RunResult {
             }
         }
     }
+    pool.retire_all();
+    stats.client_threads_spawned = pool.spawned;
+    stats.client_threads_retired = pool.retired;
     stats.steps = cfg.steps.len();
     stats.distinct_codons = codons_seen.len();
     stats.distinct_gapfree_codons = codons_seen.iter().filter(|c| !c.contains('-')).count();
@@ -709,6 +816,7 @@ pub fn run(cfg: &Config) -> RunResult {
         clients: cfg.clients,
         mode: cfg.mode.clone(),
         first_kind: cfg.first_kind.clone(),
+        exec: cfg.exec.clone(),
         digest: format!("{:016x}", digest.0),
         stats,
         violations,
@@ -720,6 +828,9 @@ pub fn run(cfg: &Config) -> RunResult {
 fn note_pres(stats: &mut RunStats, pres: &Pres, n: usize) {
     *stats.pres_kinds.entry(format!("{:?}", pres.kind)).or_insert(0) += 1;
     if pres.kind != PresKind::Static {
+        if pres.off >= 255 {
+            stats.far_offset_windows += 1;
+        }
         stats.offset_residues |= 1 << (pres.off % 16);
         if n > 0 && (pres.off % 16) + n > 16 {
             stats.straddling_windows += 1;
@@ -766,46 +877,76 @@ pub mod miri_scenario {
 
     pub fn plan(seed: u64, threads_override: Option<usize>, ops_override: Option<usize>) -> Vec<ThreadPlan> {
         let mut rng = Rng::new(seed);
-        let t_full = 2 + rng.below(2);
+        let amino_op = |rng: &mut Rng| {
+            let codon = if rng.chance(3, 4) { exact_codon(rng) } else { letters(rng, 3, false) };
+            Op::Amino { codon, pres: straddling_pres(rng) }
+        };
+        let codon_op = |rng: &mut Rng| Op::Codon { amino: (*rng.pick(AMINO_LETTERS) as char).to_string() };
+        // scenario kinds (swarm): "mixed" = every thread starts on a different path into the cold
+        // tables; "all-codon" / "all-amino" = three or four threads start on the SAME path, so
+        // they reach the same check-then-act window of the initialisation protocol almost in
+        // lock-step (what a multi-party race on one cell needs)
+        let scenario = match rng.below(4) {
+            0 | 1 => "mixed",
+            2 => "all-codon",
+            _ => "all-amino",
+        };
         let mut plans = Vec::new();
-        let roles = ["codon-first", "amino-first", "badlen-first"];
-        let rot = rng.below(3);
-        for i in 0..3 {
-            let role = roles[(i + rot) % 3];
-            let mut ops = Vec::new();
-            let amino_op = |rng: &mut Rng| {
-                let codon = if rng.chance(3, 4) { exact_codon(rng) } else { letters(rng, 3, false) };
-                Op::Amino { codon, pres: straddling_pres(rng) }
-            };
-            let codon_op = |rng: &mut Rng| Op::Codon { amino: (*rng.pick(AMINO_LETTERS) as char).to_string() };
-            match role {
-                "codon-first" => {
-                    ops.push(codon_op(&mut rng));
-                    ops.push(amino_op(&mut rng));
-                    ops.push(codon_op(&mut rng));
-                }
-                "amino-first" => {
-                    ops.push(amino_op(&mut rng));
-                    ops.push(codon_op(&mut rng));
-                    ops.push(amino_op(&mut rng));
-                }
-                _ => {
-                    let n = *rng.pick(&[0usize, 1, 2, 4, 5]);
-                    ops.push(Op::BadLen { syms: letters(&mut rng, n, true), pres: straddling_pres(&mut rng) });
-                    if rng.chance(1, 2) {
+        if scenario == "mixed" {
+            let t_full = 2 + rng.below(2);
+            let roles = ["codon-first", "amino-first", "badlen-first"];
+            let rot = rng.below(3);
+            for i in 0..3 {
+                let role = roles[(i + rot) % 3];
+                let mut ops = Vec::new();
+                match role {
+                    "codon-first" => {
                         ops.push(codon_op(&mut rng));
-                        ops.push(amino_op(&mut rng));
-                    } else {
                         ops.push(amino_op(&mut rng));
                         ops.push(codon_op(&mut rng));
                     }
+                    "amino-first" => {
+                        ops.push(amino_op(&mut rng));
+                        ops.push(codon_op(&mut rng));
+                        ops.push(amino_op(&mut rng));
+                    }
+                    _ => {
+                        let n = *rng.pick(&[0usize, 1, 2, 4, 5]);
+                        ops.push(Op::BadLen { syms: letters(&mut rng, n, true), pres: straddling_pres(&mut rng) });
+                        if rng.chance(1, 2) {
+                            ops.push(codon_op(&mut rng));
+                            ops.push(amino_op(&mut rng));
+                        } else {
+                            ops.push(amino_op(&mut rng));
+                            ops.push(codon_op(&mut rng));
+                        }
+                    }
                 }
+                let keep = 2 + rng.below(2);
+                ops.truncate(ops_override.unwrap_or(keep).max(1).min(3));
+                plans.push(ThreadPlan { role, ops });
             }
-            let keep = 2 + rng.below(2);
-            ops.truncate(ops_override.unwrap_or(keep).max(1).min(3));
-            plans.push(ThreadPlan { role, ops });
+            plans.truncate(threads_override.unwrap_or(t_full).max(1).min(3));
+        } else {
+            let t_full = 3 + rng.below(2);
+            for _ in 0..4 {
+                let mut ops = Vec::new();
+                if scenario == "all-codon" {
+                    ops.push(codon_op(&mut rng));
+                    ops.push(codon_op(&mut rng));
+                    ops.push(amino_op(&mut rng));
+                } else {
+                    ops.push(amino_op(&mut rng));
+                    ops.push(codon_op(&mut rng));
+                    ops.push(codon_op(&mut rng));
+                }
+                let keep = 1 + rng.below(3);
+                ops.truncate(ops_override.unwrap_or(keep).max(1).min(3));
+                let role = if scenario == "all-codon" { "codon-first" } else { "amino-first" };
+                plans.push(ThreadPlan { role, ops });
+            }
+            plans.truncate(threads_override.unwrap_or(t_full).max(1).min(4));
         }
-        plans.truncate(threads_override.unwrap_or(t_full).max(1).min(3));
         plans
     }
 
